@@ -843,14 +843,13 @@ Lemma lookup_restrict : forall keys k h,
   In k keys -> lookup (fst k) (restrict keys h) = lookup (fst k) h.
 Proof.
   intros keys k h Hin. induction h as [|[k' r] h IH]; [reflexivity|].
-  cbn [restrict filter fst].
-  destruct (existsb (fun k0 : pkey => String.eqb k' (fst k0)) keys) eqn:E.
+  cbn [restrict filter fst]. fold (restrict keys h).
+  match goal with |- context [if ?c then _ else _] => destruct c eqn:E end.
   - cbn [lookup]. destruct (String.eqb (fst k) k'); [reflexivity|exact IH].
   - cbn [lookup]. destruct (String.eqb (fst k) k') eqn:Ek; [|exact IH].
     apply String.eqb_eq in Ek. exfalso.
-    assert (Ht : existsb (fun k0 : pkey => String.eqb k' (fst k0)) keys = true).
-    { apply existsb_exists. exists k. split; [exact Hin|]. apply String.eqb_eq. now symmetry. }
-    congruence.
+    rewrite <- not_true_iff_false in E. apply E.
+    apply existsb_exists. exists k. split; [exact Hin|]. apply String.eqb_eq. now symmetry.
 Qed.
 
 Lemma agree_on_restrict : forall keys h, agree_on keys h (restrict keys h).
